@@ -151,7 +151,7 @@ package taskctl
 //@ property C08: taskctl.(*Scheduler).notifyStageChange/ensures* taskctl.(*Scheduler).Schedule/assert[C08.*] taskctl.(*Scheduler).Schedule/loop*/inv-*[C08.*] taskctl.checkStatus/*
 //@ property C02: taskctl.checkStatus/ensures[C02.*] taskctl.checkStatus/loop* taskctl.(*Scheduler).Schedule/assert[C02.*] taskctl.(*Scheduler).Schedule/loop*
 //@ property C04: taskctl.(*Scheduler).Schedule/assert[C04.*] taskctl.(*Scheduler).Schedule/loop* taskctl.(*Scheduler).Cancel/* taskctl.(*Scheduler).Canceled/ensures*
-//@ property C01: taskctl.(*Scheduler).Schedule/assert[C01.*]
+//@ property C01: taskctl.NewScheduler/* taskctl.(*Scheduler).OnStageChange/* taskctl.(*Scheduler).isDone/* taskctl.(*Scheduler).Finish/* taskctl.(*Scheduler).Schedule/assert[C01.*]
 
 // ---------------------------------------------------------------------------------------
 // Task execution (C08): an exit-status error of an allow_failure task never marks the task errored
